@@ -32,23 +32,23 @@ type Scenario struct {
 
 // Outcome of a run.
 type Outcome struct {
-	Converged       bool
-	ConvergedAt     int // quiet cycle index at which the stable window started
-	Bound           int
-	Reason          string // why not converged
-	Trace           []string
-	Moves           int
-	ScaleEvents     int
-	MaxShards       int
-	Obligations     int // cycles in which an unplaced eligible target obliged a scale-up
-	ObligationViol  []string
-	HandoverViol    []string
-	GapViol         []string
-	HandoversSeen   int
-	HandoverViol2   []string // judged with the harness' own scrape counts
+	Converged            bool
+	ConvergedAt          int // quiet cycle index at which the stable window started
+	Bound                int
+	Reason               string // why not converged
+	Trace                []string
+	Moves                int
+	ScaleEvents          int
+	MaxShards            int
+	Obligations          int // cycles in which an unplaced eligible target obliged a scale-up
+	ObligationViol       []string
+	HandoverViol         []string
+	GapViol              []string
+	HandoversSeen        int
+	HandoverViol2        []string // judged with the harness' own scrape counts
 	IndependentHandovers int
-	Err             string
-	FaultsApplied   int
+	Err                  string
+	FaultsApplied        int
 }
 
 func fits(w *World, id int) bool {
@@ -132,7 +132,7 @@ func Run(sc Scenario, root string, rseed int64) *Outcome {
 	// bookkeeping for the closed-loop hand-over rule, with the harness' OWN scrape counts:
 	// key "target/srcShard" -> counts at the moment the move began
 	type moveRec struct {
-		srcGen, dst, dstGen   int
+		srcGen, dst, dstGen    int
 		srcAtBegin, dstAtBegin int
 	}
 	moves := map[string]*moveRec{}
